@@ -332,9 +332,12 @@ Proof.
   simpl. rewrite (step_render _ _ _ _ Hc). destruct (step_kind idx k s); [now apply IH|reflexivity].
 Qed.
 
+Section WithFormatter.
+Variable fparse : string -> option (list (string * string)).
+
 Lemma parse_render cols tmpl : cols <> [] -> forallb col_ok cols = true ->
-  parse_format (render cols) tmpl =
-  match run_kinds 0 (map fst cols) st0 with Ok s => finish s tmpl | Err e => Err e end.
+  parse_format fparse (render cols) tmpl =
+  match run_kinds 0 (map fst cols) st0 with Ok s => finish fparse s tmpl | Err e => Err e end.
 Proof.
   intros Hne H. unfold parse_format. now rewrite (split_render _ Hne H), (run_render _ _ _ H).
 Qed.
@@ -623,51 +626,84 @@ Qed.
 
 Lemma finish_ok s tmpl d a :
   (mem "description" (keys (fp s)) = true \/ (cc s <> [] /\ truthy tmpl = true)) ->
-  (truthy tmpl = true ->
-   forallb (fun r => mem r (keys (if mem "description" (keys (fp s)) then [] else cc s))) (tmpl_refs tmpl) = true) ->
+  check_template fparse tmpl (keys (if mem "description" (keys (fp s)) then [] else cc s)) = None ->
   lookup "date" (fp s) = Some d -> lookup "amount" (fp s) = Some a ->
-  finish s tmpl =
+  finish fparse s tmpl =
   Ok {| f_date := d; f_date_format := dfmt s; f_amount := a; f_desc := lookup "description" (fp s);
         f_custom := (if mem "description" (keys (fp s)) then [] else cc s); f_template := tmpl;
         f_extra := (if mem "description" (keys (fp s)) then cc s else []);
         f_loc := lookup "location" (fp s); f_neg := neg s; f_abs := absv s; f_skipped := skp s |}.
 Proof.
   intros H1 H2 Hd Ha. unfold finish. rewrite Hd, Ha.
-  destruct (mem "description" (keys (fp s))) eqn:Ehd; destruct (cc s) as [|p l] eqn:Ecc; simpl.
-  - destruct (truthy tmpl) eqn:Et; [|reflexivity].
-    apply first_missing_none in H2; [|reflexivity]. simpl in H2. now rewrite H2.
-  - destruct (truthy tmpl) eqn:Et; [|reflexivity].
-    apply first_missing_none in H2; [|reflexivity]. simpl in H2. now rewrite H2.
+  destruct (mem "description" (keys (fp s))) eqn:Ehd; destruct (cc s) as [|p l] eqn:Ecc; simpl in H2 |- *.
+  - now rewrite H2.
+  - now rewrite H2.
   - destruct H1 as [H1|[H1 _]]; [discriminate|contradiction].
-  - destruct H1 as [H1|[_ H1]]; [discriminate|]. specialize (H2 H1). rewrite H1. simpl.
-    apply first_missing_none in H2. simpl in H2. simpl. now rewrite H2.
+  - destruct H1 as [H1|[_ H1]]; [discriminate|]. rewrite H1. simpl. now rewrite H2.
 Qed.
 
-Lemma finish_nodesc s tmpl : mem "description" (keys (fp s)) = false -> cc s = [] -> finish s tmpl = Err ENoDescription.
+Lemma finish_nodesc s tmpl : mem "description" (keys (fp s)) = false -> cc s = [] -> finish fparse s tmpl = Err ENoDescription.
 Proof. intros H1 H2. unfold finish. now rewrite H1, H2. Qed.
 
 Lemma finish_missing s tmpl :
-  lookup "date" (fp s) = None \/ lookup "amount" (fp s) = None -> exists e, finish s tmpl = Err e.
+  lookup "date" (fp s) = None \/ lookup "amount" (fp s) = None -> exists e, finish fparse s tmpl = Err e.
 Proof.
   intros H. unfold finish.
   destruct (negb (mem "description" (keys (fp s))) && _)%bool; [eauto|].
   destruct (_ && negb (truthy tmpl))%bool; [eauto|].
-  destruct (if truthy tmpl then _ else None); [eauto|].
+  destruct (check_template fparse tmpl _); [eauto|].
   destruct H as [-> | ->]; [eauto|]. destruct (lookup "date" (fp s)); eauto.
 Qed.
 
-Lemma finish_uncaptured s t r :
-  In r (template_refs t) ->
-  ~ In r (keys (if mem "description" (keys (fp s)) then [] else cc s)) ->
-  exists e, finish s (Some t) = Err e.
+Lemma finish_check_err s tmpl e :
+  check_template fparse tmpl (keys (if mem "description" (keys (fp s)) then [] else cc s)) = Some e ->
+  exists e', finish fparse s tmpl = Err e'.
 Proof.
-  intros Hin Hnot.
-  assert (Ht : truthy (Some t) = true) by (destruct t; [contradiction Hin|reflexivity]).
-  unfold finish. rewrite Ht.
-  destruct (mem "description" (keys (fp s))) eqn:Ehd; destruct (cc s) as [|p l] eqn:Ecc; simpl; eauto.
-  - destruct (first_missing_some (template_refs t) [] r Hin Hnot) as [m ->]. eauto.
-  - destruct (first_missing_some (template_refs t) [] r Hin Hnot) as [m ->]. eauto.
-  - destruct (first_missing_some (template_refs t) _ r Hin Hnot) as [m Hm]. simpl in Hm. rewrite Hm. eauto.
+  intros H. unfold finish.
+  destruct (mem "description" (keys (fp s))) eqn:Ehd; destruct (cc s) as [|p l] eqn:Ecc; simpl in *.
+  - rewrite H. eauto.
+  - rewrite H. eauto.
+  - eauto.
+  - destruct (truthy tmpl); simpl; [|eauto]. rewrite H. eauto.
+Qed.
+
+(* the scan finds every name the template looks up (for any library parser) *)
+Lemma collect_in rec l names : collect rec l = Some names -> forall fld spec, In (fld, spec) l ->
+  In (arg_name fld) names /\ (is_empty spec = false -> exists a, rec spec = Some a /\ incl a names).
+Proof.
+  revert names. induction l as [|[f0 s0] l IH]; intros names H fld spec Hin; [contradiction|].
+  simpl in H.
+  destruct (if is_empty s0 then Some [] else rec s0) as [a|] eqn:Ea; [|discriminate].
+  destruct (collect rec l) as [b|] eqn:Eb; [|discriminate]. injection H as <-.
+  destruct Hin as [E|Hin].
+  - injection E as -> ->. split; [now left|]. intros Hs. rewrite Hs in Ea. exists a. split; [exact Ea|].
+    intros x Hx. right. apply in_or_app. now left.
+  - destruct (IH b eq_refl fld spec Hin) as [H1 H2]. split.
+    + right. apply in_or_app. now right.
+    + intros Hs. destruct (H2 Hs) as (a' & Ha' & Hincl). exists a'. split; [exact Ha'|].
+      intros x Hx. right. apply in_or_app. right. now apply Hincl.
+Qed.
+
+Lemma tnames_complete : forall fuel t names, tnames fparse fuel t = Some names ->
+  forall r, looks_up fparse t r -> In r names.
+Proof.
+  induction fuel as [|f IH]; intros t names H r Hl; [discriminate|].
+  simpl in H. destruct (fparse t) as [fields|] eqn:Ef; [|discriminate].
+  inversion Hl as [t' fields' fld spec Ef' Hin|t' fields' fld spec r' Ef' Hin Hne Hsub]; subst;
+    rewrite Ef in Ef'; injection Ef' as <-; destruct (collect_in _ _ _ H _ _ Hin) as [H1 H2].
+  - exact H1.
+  - assert (Hs : is_empty spec = false) by (destruct spec; [contradiction|reflexivity]).
+    destruct (H2 Hs) as (a & Ha & Hincl). apply Hincl. eapply IH; eauto.
+Qed.
+
+Lemma check_template_looks_up t r have :
+  t <> "" -> looks_up fparse t r -> ~ In r have -> exists e, check_template fparse (Some t) have = Some e.
+Proof.
+  intros Hne Hl Hnot. unfold check_template.
+  assert (Hs : is_empty t = false) by (destruct t; [contradiction|reflexivity]). rewrite Hs.
+  destruct (template_names fparse t) as [names|] eqn:E; [|eauto].
+  pose proof (tnames_complete _ _ _ E r Hl) as Hin.
+  destruct (first_missing_some names have r Hin Hnot) as [m ->]. eauto.
 Qed.
 
 (* ---- the final state of a duplicate-free arrangement ---- *)
@@ -737,8 +773,8 @@ Qed.
 
 Lemma positions_kinds ks tmpl :
   customs_nonres ks -> NoDup (keylist ks) -> In "date" (keylist ks) -> In "amount" (keylist ks) ->
-  template_okb ks tmpl = true ->
-  exists sp, finish (final 0 ks st0) tmpl = Ok sp /\ maps_by_position ks tmpl sp.
+  template_okb fparse ks tmpl = true ->
+  exists sp, finish fparse (final 0 ks st0) tmpl = Ok sp /\ maps_by_position ks tmpl sp.
 Proof.
   intros Hnr Hnd Hd Ha Ht.
   destruct reserved_facts as (Rd & Ra & _).
@@ -762,8 +798,13 @@ Proof.
       apply andb_true_iff in H as [Hc Htr]. split; [|exact Htr].
       rewrite Ecc. intros E. pose proof (keys_pairs_ckey ks 0) as Hk. rewrite E in Hk. simpl in Hk.
       rewrite <- Hk in Hc. discriminate.
-    + intros Htr. rewrite Htr in Ht2. simpl in Ht2. rewrite Ehd, Ecc. unfold mode2_names in Ht2.
-      destruct (has_desc ks); [exact Ht2|]. now rewrite keys_pairs_ckey.
+    + rewrite Ehd, Ecc. unfold check_template. destruct tmpl as [t|]; [|reflexivity].
+      destruct (is_empty t); [reflexivity|]. simpl in Ht2.
+      destruct (template_names fparse t) as [names|]; [|discriminate].
+      apply first_missing_none in Ht2. unfold mode2_names in Ht2.
+      assert (Ek : keys (if has_desc ks then [] else pairs ckey 0 ks) = (if has_desc ks then [] else cnames ks))
+        by (destruct (has_desc ks); [reflexivity|apply keys_pairs_ckey]).
+      rewrite Ek. now rewrite Ht2.
     + now rewrite Efp.
     + now rewrite Efp.
   - unfold maps_by_position. cbn [f_date f_date_format f_amount f_desc f_custom f_template f_extra f_loc f_neg f_abs f_skipped].
@@ -791,8 +832,8 @@ Qed.
 Lemma positions cols tmpl :
   forallb col_ok cols = true ->
   NoDup (keylist (map fst cols)) -> In "date" (keylist (map fst cols)) -> In "amount" (keylist (map fst cols)) ->
-  template_okb (map fst cols) tmpl = true ->
-  exists sp, parse_format (render cols) tmpl = Ok sp /\ maps_by_position (map fst cols) tmpl sp.
+  template_okb fparse (map fst cols) tmpl = true ->
+  exists sp, parse_format fparse (render cols) tmpl = Ok sp /\ maps_by_position (map fst cols) tmpl sp.
 Proof.
   intros Hok Hnd Hd Ha Ht.
   assert (Hne : cols <> []) by (destruct cols; [contradiction Hd|discriminate]).
@@ -800,7 +841,7 @@ Proof.
   rewrite (parse_render _ _ Hne Hok), (run_kinds_nodup _ Hnr Hnd). now apply positions_kinds.
 Qed.
 
-Lemma parse_empty tmpl : exists e, parse_format "" tmpl = Err e.
+Lemma parse_empty tmpl : exists e, parse_format fparse "" tmpl = Err e.
 Proof. eexists. reflexivity. Qed.
 
 Lemma cnames_nil ks : (forall n, ~ In (KCustom n) ks) -> cnames ks = [].
@@ -820,7 +861,7 @@ Lemma reject_missing cols tmpl :
   forallb col_ok cols = true ->
   (~ In "date" (keylist (map fst cols)) \/ ~ In "amount" (keylist (map fst cols)) \/
    (~ In KDesc (map fst cols) /\ forall n, ~ In (KCustom n) (map fst cols))) ->
-  exists e, parse_format (render cols) tmpl = Err e.
+  exists e, parse_format fparse (render cols) tmpl = Err e.
 Proof.
   intros Hok H. destruct cols as [|c cols']; [apply parse_empty|].
   rewrite (parse_render (c :: cols') _ ltac:(discriminate) Hok).
@@ -839,7 +880,7 @@ Qed.
 
 Lemma reject_duplicate cols tmpl :
   forallb col_ok cols = true -> ~ NoDup (keylist (map fst cols)) ->
-  exists e, parse_format (render cols) tmpl = Err e.
+  exists e, parse_format fparse (render cols) tmpl = Err e.
 Proof.
   intros Hok H. destruct cols as [|c cols']; [apply parse_empty|].
   rewrite (parse_render (c :: cols') _ ltac:(discriminate) Hok).
@@ -847,29 +888,31 @@ Proof.
 Qed.
 
 Lemma reject_uncaptured cols t r :
-  forallb col_ok cols = true -> In r (template_refs t) -> ~ In r (mode2_names (map fst cols)) ->
-  exists e, parse_format (render cols) (Some t) = Err e.
+  forallb col_ok cols = true -> t <> "" -> looks_up fparse t r -> ~ In r (mode2_names (map fst cols)) ->
+  exists e, parse_format fparse (render cols) (Some t) = Err e.
 Proof.
-  intros Hok Hin Hnot. destruct cols as [|c cols']; [apply parse_empty|].
+  intros Hok Hne Hl Hnot. destruct cols as [|c cols']; [apply parse_empty|].
   rewrite (parse_render (c :: cols') _ ltac:(discriminate) Hok).
   destruct (run_kinds 0 _ st0) as [s|e] eqn:E; [|eauto].
   apply run_kinds_ok_final in E. subst s. set (ks := map fst (c :: cols')) in *.
-  apply finish_uncaptured with (r := r); [exact Hin|].
-  change (fp (final 0 ks st0)) with (pairs rkey 0 ks). change (cc (final 0 ks st0)) with (pairs ckey 0 ks).
-  rewrite mem_desc_pairs. unfold mode2_names in Hnot. destruct (has_desc ks); [exact Hnot|].
-  now rewrite keys_pairs_ckey.
+  assert (Ek : keys (if mem "description" (keys (fp (final 0 ks st0))) then [] else cc (final 0 ks st0)) = mode2_names ks).
+  { change (fp (final 0 ks st0)) with (pairs rkey 0 ks). change (cc (final 0 ks st0)) with (pairs ckey 0 ks).
+    rewrite mem_desc_pairs. unfold mode2_names. destruct (has_desc ks); [reflexivity|apply keys_pairs_ckey]. }
+  destruct (check_template_looks_up t r _ Hne Hl Hnot) as [e He].
+  eapply finish_check_err. rewrite Ek. exact He.
 Qed.
 
-(* every name str.format would look up is also seen by the parser's plain-reference scan *)
-Definition names_plain (t : string) : bool := forallb (fun n => mem n (template_refs t)) (format_names t).
-
-Lemma reject_uncaptured_names cols t r :
-  forallb col_ok cols = true -> names_plain t = true ->
-  In r (format_names t) -> ~ In r (mode2_names (map fst cols)) ->
-  exists e, parse_format (render cols) (Some t) = Err e.
+(* a non-empty template that the library's parser rejects is rejected *)
+Lemma reject_malformed_template cols t :
+  forallb col_ok cols = true -> t <> "" -> fparse t = None ->
+  exists e, parse_format fparse (render cols) (Some t) = Err e.
 Proof.
-  intros Hok Hp Hin Hnot. unfold names_plain in Hp. rewrite forallb_forall in Hp.
-  apply (reject_uncaptured cols t r Hok); [|exact Hnot]. apply mem_In. now apply Hp.
+  intros Hok Hne Hf. destruct cols as [|c cols']; [apply parse_empty|].
+  rewrite (parse_render (c :: cols') _ ltac:(discriminate) Hok).
+  destruct (run_kinds 0 _ st0) as [s|e] eqn:E; [|eauto].
+  eapply finish_check_err with (e := EBadTemplate). unfold check_template.
+  assert (Hs : is_empty t = false) by (destruct t; [contradiction|reflexivity]). rewrite Hs.
+  unfold template_names. simpl. now rewrite Hf.
 Qed.
 
 (* ================================================================== part 3: inspect ====== *)
@@ -1029,7 +1072,7 @@ Proof.
 Qed.
 
 Lemma suggest_roundtrip d : distinct d -> spec_ok (a_date_format d) = true ->
-  exists sp, parse_format (suggest d) None = Ok sp /\
+  exists sp, parse_format fparse (suggest d) None = Ok sp /\
     f_date sp = a_date d /\ f_date_format sp = a_date_format d /\ f_desc sp = Some (a_desc d) /\
     f_amount sp = a_amount d /\ f_loc sp = a_loc d /\ f_neg sp = false /\ f_abs sp = false /\
     f_custom sp = [] /\ f_extra sp = [].
@@ -1143,7 +1186,7 @@ Lemma detect_format_ok : spec_ok detect_date_format = true.
 Proof. vm_compute. reflexivity. Qed.
 
 Lemma inspect_roundtrip hs d : auto_detect hs = Some d ->
-  exists sp, parse_format (suggest d) None = Ok sp /\
+  exists sp, parse_format fparse (suggest d) None = Ok sp /\
     f_date sp = a_date d /\ f_date_format sp = a_date_format d /\ f_desc sp = Some (a_desc d) /\
     f_amount sp = a_amount d /\ f_loc sp = a_loc d /\ f_neg sp = false /\ f_abs sp = false /\
     f_custom sp = [] /\ f_extra sp = [].
@@ -1151,3 +1194,5 @@ Proof.
   intros H. destruct (auto_detect_distinct _ _ H) as [Hd Hf].
   apply suggest_roundtrip; [exact Hd|]. rewrite Hf. exact detect_format_ok.
 Qed.
+
+End WithFormatter.
